@@ -142,6 +142,12 @@ func genC11(seed uint64, index int, tier string) C11Cfg {
 	if rd := prng.Derive(seed, "real-init-delay"); c.Sess.Deploy.Backend != "scripted" && rd.Bool(0.3) {
 		c.Sess.Deploy.RealInitDelayMs = rd.Range(1, 40)
 	}
+	// a quarter of the scripted runs: the backend returns only some simulated time after the end of its context (as the
+	// tss-lib ECDSA adapter does); the API call must return by its deadline / cancellation all the same
+	if rl := prng.Derive(seed, "linger"); c.Sess.Deploy.Backend == "scripted" && rl.Bool(0.25) {
+		c.Sess.Deploy.SP.LingerMs = rl.Range(50, 4000)
+		c.Sess.Deploy.SignSP.LingerMs = c.Sess.Deploy.SP.LingerMs
+	}
 	// a third of the runs: the same scenario over small non-contiguous identifiers (order-preserving renaming)
 	if r.Bool(0.33) {
 		m := map[uint16]uint16{}
@@ -230,6 +236,9 @@ func runC11(t *testing.T, spec RunSpec) *RunResult {
 	bubble(t, func() {
 		sc := cfg.Sess
 		w := netsim.NewWorld(spec.Seed)
+		if sc.Deploy.SP.LingerMs > 0 {
+			w.Probes["lingering-backend"]++
+		}
 		w.Serial = sc.Serial
 		trace(spec, res.Cfg, w)
 		d := NewDeployment(w, sc.Deploy)
